@@ -31,6 +31,13 @@ CHECKS = {
         "Trusted: harness JSON rendering of terms; the DeBruijn->Name conversion used before printing (itself monitored by C11).",
         "DESIGN.md §3 C15",
     ),
+    "C07": (
+        "exploration",
+        "runtime monitoring: brute-force matcher over enumerated scrutinee values as reference model; exhaustive enumeration of small clause lists + random deeper ones",
+        "All clause lists of length <= 3 over the complete depth-<=2 pattern universes of nine small scrutinee types (17 in the thorough tier) plus random clause lists to 6 clauses and let/expect destructuring are type-checked and, when accepted, compiled and run on every enumerated scrutinee value under silent and verbose tracing. The oracle enumerates values and computes first match, bindings, unmatched values and per-clause reach sets by brute force; compared are the accept/reject verdict, the reported missing patterns, the clause flagged redundant, and the clause index + bindings the compiled code returns.",
+        "Trusted: patterns/brute.py and patterns/types.py (value enumeration to pattern depth + 1, list length + 1, literals mentioned + one fresh), cross-checked by a second enumeration strategy. The compiler's `unmatched` list is judged as witnesses, not as a cover.",
+        "DESIGN.md §3 C07",
+    ),
     "C12": (
         "exploration",
         "runtime monitoring: four-way differential oracle (schema validation vs compiled expect vs independent Python type model vs independent reader of the published schema JSON) over generated types and conforming / near-miss Data",
